@@ -1,4 +1,5 @@
 ---- MODULE MC_PathStr ----
 EXTENDS PathStrP
 C5 == {"/", "a", "b", ".", " "}
+C6 == C5 \cup {":"}    \* a colon in second position is what a drive-letter test looks for
 ====
